@@ -113,6 +113,25 @@ def run(e: Engine, rep: Report):
              'relay reported its results)')
     _c03.r36(e, rep, 'R1.17')
     r118(e, rep)
+    from . import c12 as _c12, c13 as _c13, c19 as _c19
+    rep.rule('R1.19', '= C12-Q11: the scheduler compares due times with '
+             'time.time() - the clock of the timestamps the store keeps '
+             'across restarts (a message loaded from storage is not '
+             'scheduled decades ahead)')
+    sub = Report(rep.prop, rep.tier, rep.repo)
+    _c12.q11(e, sub)
+    for o in sub.obls:
+        rep.add('R1.19', o.where, o.text, o.status, o.what, o.loc, o.witness,
+                o.nontrivial, o.reason)
+    rep.errors += sub.errors
+    rep.evaluations += sub.evaluations
+    rep.functions |= sub.functions
+    rep.rule('R1.20', '= C13-B12: the default bounce factory always makes '
+             'a bounce')
+    _c13.b12(e, rep, 'R1.20')
+    rep.rule('R1.21', '= C19-L12: relay greenlets are killed only from '
+             'kill()')
+    _c19.l12(e, rep, 'R1.21')
     rep.floor('R1.2', 5, 'removal sites')
     rep.floor('R1.5', 3, 'backend uses of the index argument')
 
@@ -753,12 +772,13 @@ def r17(e: Engine, rep: Report):
     kinds = set()
     settled = settled_paths(e, g)
     derived = common.derived_paths(g, {rv})
+    content = common.content_paths(g, {rv})
 
     def judge(n, w, text, detail, reason):
         # a witness that runs through a test of a value computed from the
         # result (a tag the results were first mapped to) is not evidence:
         # whether that path exists depends on values
-        op = common.opaque_tests(w, derived) if w else []
+        op = common.opaque_tests(w, derived, content) if w else []
         if op:
             rep.error('R1.7 cannot be decided at %s: the path to this site '
                       'depends on `%s`, computed from the result'
